@@ -3,6 +3,7 @@ import re
 from collections.abc import MutableMapping, Iterable
 from deepdiff.helper import SetOrdered
 import logging
+from deepdiff.path import stringify_element
 
 from deepdiff.helper import (
     strings, numbers, add_to_frozen_set, get_doc, dict_, RE_COMPILED_TYPE, ipranges
@@ -205,7 +206,10 @@ class DeepSearch(dict):
         obj_keys = SetOrdered(obj.keys())
 
         for item_key in obj_keys:
-            if not print_as_attribute and isinstance(item_key, strings):
+            if not print_as_attribute and isinstance(item_key, str):
+                # quoted the way DeepDiff quotes keys, so that the path can be parsed back when the key holds a quote
+                item_key_str = stringify_element(item_key, quote_str="'{}'")
+            elif not print_as_attribute and isinstance(item_key, strings):
                 item_key_str = "'%s'" % item_key
             else:
                 item_key_str = item_key
